@@ -135,12 +135,22 @@ Fixpoint leftmost_field (e : aexp) : bool :=
   match e with AField _ => true | ABin _ a _ => leftmost_field a | _ => false end.
 Definition lhs_simple (e : aexp) : bool := lhs_atoms_ok e && leftmost_field e.
 
+(** left-hand sides outside the condition pattern (repair of the parser: parse_single_condition, split_arithmetic_comparison): arithmetic
+    with parentheses - the documented `(Order.total - Order.discount) * 1.1 > 1000` - or starting with a literal; with one of the six symbolic
+    comparison operators the whole text is a test condition *)
+Definition has_arith_char (t : str) : bool := existsb (fun c => memc c t) [43; 45; 42; 47; 37].
+Definition starts_with_field (t : str) : bool := match t with c :: _ => ((65 <=? c) && (c <=? 90)) || ((97 <=? c) && (c <=? 122)) || (c =? 95) | [] => false end.
+Definition lhs_wide (l : aexp) : bool := has_arith_char (pr l) && (memc 40 (pr l) || negb (starts_with_field (pr l))).
+Definition sym_cmp (o : oper) : bool := match o with OEq | ONe | OGt | OGe | OLt | OLe => true | _ => false end.
+
 Definition compile_cmp (l : aexp) (o : oper) (r : aexp) : option condition :=
   if lhs_simple l then
     match l with
     | AField p => Some {| c_expr := CField (join_dot p); c_op := o; c_val := parse_val (pr r) |}
     | _ => Some {| c_expr := CTest (pr l ++ [32] ++ op_str o ++ [32] ++ trim ws_unicode (pr r)); c_op := OEq; c_val := VBool true |}
     end
+  else if lhs_wide l && sym_cmp o then
+    Some {| c_expr := CTest (pr l ++ [32] ++ op_str o ++ [32] ++ trim ws_unicode (pr r)); c_op := OEq; c_val := VBool true |}
   else None.
 
 Fixpoint compile_cond (c : scond) : option cgroup :=
